@@ -29,6 +29,7 @@ type Node struct {
 	In     int    `json:"in"`
 	Out    int    `json:"out"`
 	Echo   bool   `json:"echo,omitempty"`
+	Nil    bool   `json:"nil,omitempty"` // emits a nil interface value in every second variant (interface-typed Out only)
 	InKey  string `json:"in_key,omitempty"`
 	OutKey string `json:"out_key,omitempty"`
 	// state handlers: type index or -1
@@ -38,7 +39,19 @@ type Node struct {
 	PostStream bool `json:"post_stream,omitempty"`
 	PreState   int  `json:"pre_state,omitempty"` // 0: the graph's state type, 1: another one
 	PostState  int  `json:"post_state,omitempty"`
+	// what the handler hands on: 0 what it received, 1 another value of its declared
+	// type, 2 a nil interface value (interface-typed handlers only)
+	PreConv  int `json:"pre_conv,omitempty"`
+	PostConv int `json:"post_conv,omitempty"`
 }
+
+// Mapping is a workflow field mapping of one data connection ("" = the whole value).
+type Mapping struct {
+	From string `json:"from,omitempty"`
+	To   string `json:"to,omitempty"`
+}
+
+func (m Mapping) empty() bool { return m.From == "" && m.To == "" }
 
 type Call struct {
 	Branch     bool     `json:"branch,omitempty"`
@@ -47,9 +60,28 @@ type Call struct {
 	Cond       int      `json:"cond,omitempty"`
 	StreamCond bool     `json:"stream_cond,omitempty"`
 	Group      int      `json:"group,omitempty"` // branches of one group always choose the same end index
+	// workflow only: field mapping of the data connection From→To[i] (nil: none)
+	Maps []Mapping `json:"maps,omitempty"`
+}
+
+func (c *Call) mapping(i int) Mapping {
+	if i < len(c.Maps) {
+		return c.Maps[i]
+	}
+	return Mapping{}
+}
+
+func (c *Call) mapped() bool {
+	for _, m := range c.Maps {
+		if !m.empty() {
+			return true
+		}
+	}
+	return false
 }
 
 type Spec struct {
+	Front int    `json:"front"` // 0 Graph, 1 Chain, 2 Workflow
 	GI    int    `json:"gi"`
 	GO    int    `json:"go"`
 	State bool   `json:"state,omitempty"`
@@ -73,35 +105,51 @@ func (s *Spec) clone() *Spec {
 	c.Calls = make([]Call, len(s.Calls))
 	for i, k := range s.Calls {
 		k.To = append([]string(nil), k.To...)
+		k.Maps = append([]Mapping(nil), k.Maps...)
 		c.Calls[i] = k
 	}
 	return &c
 }
 
-// inPort / outPort: the declared type of a node's ports (-1 for passthrough).
+// inPort / outPort: the declared type of a node's ports (-1: a pass-through node's
+// side without a key, which has no declared type of its own).
 func (n *Node) inPort() int {
-	if n.Kind == kPass {
-		return -1
-	}
 	if n.InKey != "" {
 		return tMap
+	}
+	if n.Kind == kPass {
+		return -1
 	}
 	return n.In
 }
 
 func (n *Node) outPort() int {
-	if n.Kind == kPass {
-		return -1
-	}
 	if n.OutKey != "" {
 		return tMap
+	}
+	if n.Kind == kPass {
+		return -1
 	}
 	return n.Out
 }
 
+// transparent: a pass-through node without keys hands on what it receives.
+func (n *Node) transparent() bool { return n.Kind == kPass && n.InKey == "" && n.OutKey == "" }
+
+// producerType: the declared type of what leaves the node (-1: whatever came in).
+func (n *Node) producerType() int {
+	if o := n.outPort(); o >= 0 {
+		return o
+	}
+	if n.InKey != "" {
+		return tAny // a map element
+	}
+	return -1
+}
+
 func (s *Spec) String() string {
 	var b strings.Builder
-	fmt.Fprintf(&b, "G[%s→%s", typeNames[s.GI], typeNames[s.GO])
+	fmt.Fprintf(&b, "%s[%s→%s", [...]string{"G", "Chain", "Workflow"}[s.Front], typeNames[s.GI], typeNames[s.GO])
 	if s.State {
 		b.WriteString(",state")
 	}
@@ -113,10 +161,23 @@ func (s *Spec) String() string {
 		switch n.Kind {
 		case kPass:
 			fmt.Fprintf(&b, "%s:pass", n.Key)
+			if n.InKey != "" || n.OutKey != "" {
+				var ks []string
+				if n.InKey != "" {
+					ks = append(ks, "ik="+n.InKey)
+				}
+				if n.OutKey != "" {
+					ks = append(ks, "ok="+n.OutKey)
+				}
+				b.WriteString("(" + strings.Join(ks, ",") + ")")
+			}
 		default:
 			fmt.Fprintf(&b, "%s:%s(%s→%s", n.Key, [...]string{"inv", "trans"}[n.Kind], typeNames[n.In], typeNames[n.Out])
 			if n.Echo {
 				b.WriteString(",echo")
+			}
+			if n.Nil {
+				b.WriteString(",nil")
 			}
 			if n.InKey != "" {
 				b.WriteString(",ik=" + n.InKey)
@@ -126,11 +187,12 @@ func (s *Spec) String() string {
 			}
 			b.WriteString(")")
 		}
+		convs := [...]string{"", ",converts", ",hands-on-nil"}
 		if n.Pre >= 0 {
-			fmt.Fprintf(&b, "[pre %s%s]", typeNames[n.Pre], map[bool]string{true: ",stream"}[n.PreStream])
+			fmt.Fprintf(&b, "[pre %s%s%s]", typeNames[n.Pre], map[bool]string{true: ",stream"}[n.PreStream], convs[n.PreConv])
 		}
 		if n.Post >= 0 {
-			fmt.Fprintf(&b, "[post %s%s]", typeNames[n.Post], map[bool]string{true: ",stream"}[n.PostStream])
+			fmt.Fprintf(&b, "[post %s%s%s]", typeNames[n.Post], map[bool]string{true: ",stream"}[n.PostStream], convs[n.PostConv])
 		}
 		b.WriteString(" ")
 	}
@@ -142,10 +204,17 @@ func (s *Spec) String() string {
 }
 
 func (c Call) String() string {
-	if c.Branch {
-		return fmt.Sprintf("B(%s?%s%s→%s)", c.From, typeNames[c.Cond], map[bool]string{true: ",stream"}[c.StreamCond], strings.Join(c.To, ","))
+	to := make([]string, len(c.To))
+	for i, t := range c.To {
+		to[i] = t
+		if m := c.mapping(i); !m.empty() {
+			to[i] = fmt.Sprintf("%s{%s>%s}", t, m.From, m.To)
+		}
 	}
-	return fmt.Sprintf("E(%s→%s)", c.From, c.To[0])
+	if c.Branch {
+		return fmt.Sprintf("B(%s?%s%s→%s)", c.From, typeNames[c.Cond], map[bool]string{true: ",stream"}[c.StreamCond], strings.Join(to, ","))
+	}
+	return fmt.Sprintf("E(%s→%s)", c.From, to[0])
 }
 
 // ---- generator ----------------------------------------------------------------
@@ -239,6 +308,20 @@ type nodeReq struct {
 	forceOutKey string
 	wantOut     int  // -1: free; else the type the successor expects
 	exactIn     bool // input type = cur (join nodes)
+	hasForceIn  bool // the input type is given and the node has no input key (targets of field mappings)
+	forceIn     int
+}
+
+// convChoice: does a state handler declared on type t hand on what it received (0),
+// another value of its declared type (1) or a nil interface value (2)?
+func convChoice(r *mon.Rand, t int) int {
+	if !r.Prob(0.35) {
+		return 0
+	}
+	if t >= 0 && isIface(t) && r.Prob(0.3) {
+		return 2
+	}
+	return 1
 }
 
 // newNode creates a node fed by a value of static type cur and returns its key.
@@ -246,22 +329,49 @@ func (g *gen) newNode(q nodeReq) string {
 	r := g.r
 	cur := q.cur
 	n := Node{Pre: -1, Post: -1}
-	if q.allowPass && q.forceOutKey == "" && r.Prob(0.33) {
+	upKey := func() string {
+		if u := g.s.node(q.up); u != nil && u.OutKey != "" {
+			return u.OutKey
+		}
+		return "k"
+	}
+	if q.allowPass && !q.hasForceIn && r.Prob(0.33) {
 		n.Kind = kPass
 		n.Key = g.key("p")
-		if g.s.State && r.Prob(0.2) {
+		// keys: a pass-through node with an output key wraps what it receives (this is
+		// what Parallel.AddPassthrough creates), one with an input key unwraps a map element
+		if q.forceOutKey != "" {
+			n.OutKey = q.forceOutKey
+		} else if r.Prob(0.15) {
+			n.OutKey = "k"
+		}
+		// (never both keys: nothing tells eino the inner type of such a node and Compile
+		// dereferences a nil pointer — a panic while building, outside this property)
+		mapLike := cur == tMap || (cur >= 0 && isIface(cur) && r.Prob(0.3))
+		if n.OutKey == "" && mapLike && r.Prob(0.3) {
+			n.InKey = upKey()
+		}
+		if g.s.State && r.Prob(0.35) {
 			n.Pre = tAny
+			if n.InKey != "" {
+				n.Pre = tMap
+			}
 			if r.Prob(0.1) {
 				n.Pre = pickType(r)
 			}
 			n.PreStream = r.Prob(0.3)
+			n.PreConv = convChoice(r, n.Pre)
 		}
-		if g.s.State && r.Prob(0.2) {
+		if g.s.State && r.Prob(0.3) {
 			n.Post = tAny
+			if n.OutKey != "" {
+				n.Post = tMap
+			}
 			if r.Prob(0.1) {
 				n.Post = pickType(r)
 			}
 			n.PostStream = r.Prob(0.3)
+			n.PostConv = convChoice(r, n.Post)
 		}
 		g.s.Nodes = append(g.s.Nodes, n)
 		return n.Key
@@ -273,11 +383,10 @@ func (g *gen) newNode(q nodeReq) string {
 	n.Echo = r.Prob(0.5)
 	// input side
 	mapLike := cur == tMap || (cur >= 0 && isIface(cur) && r.Prob(0.15))
-	if (mapLike && r.Prob(0.5)) || r.Prob(0.02) {
-		n.InKey = "k"
-		if u := g.s.node(q.up); u != nil && u.OutKey != "" {
-			n.InKey = u.OutKey
-		}
+	if q.hasForceIn {
+		n.In = q.forceIn
+	} else if (mapLike && r.Prob(0.5)) || r.Prob(0.02) {
+		n.InKey = upKey()
 		n.In = pickType(r)
 	} else if q.exactIn && r.Prob(0.7) {
 		n.In = cur
@@ -303,12 +412,16 @@ func (g *gen) newNode(q nodeReq) string {
 			n.Out = pickType(r)
 		}
 	}
+	if isIface(n.Out) && r.Prob(0.22) {
+		n.Nil = true
+	}
 	if g.s.State && r.Prob(0.35) {
 		n.Pre = n.inPort()
 		if r.Prob(0.15) {
 			n.Pre = pickType(r)
 		}
 		n.PreStream = r.Prob(0.3)
+		n.PreConv = convChoice(r, n.Pre)
 		if r.Prob(0.18) {
 			n.PreState = 1
 		}
@@ -319,6 +432,7 @@ func (g *gen) newNode(q nodeReq) string {
 			n.Post = pickType(r)
 		}
 		n.PostStream = r.Prob(0.3)
+		n.PostConv = convChoice(r, n.Post)
 		if r.Prob(0.18) {
 			n.PostState = 1
 		}
@@ -331,16 +445,74 @@ func (g *gen) edge(from, to string) {
 	g.s.Calls = append(g.s.Calls, Call{From: from, To: []string{to}})
 }
 
+func (g *gen) mappedEdge(from, to string, m Mapping) {
+	g.s.Calls = append(g.s.Calls, Call{From: from, To: []string{to}, Maps: []Mapping{m}})
+}
+
 // staticOut: the static type of what node key emits, cur = what flows in.
 func (g *gen) staticOut(key string, cur int) int {
 	if key == START {
 		return g.s.GI
 	}
 	n := g.s.node(key)
-	if n.Kind == kPass {
-		return cur
+	if t := n.producerType(); t >= 0 {
+		return t
 	}
-	return n.outPort()
+	return cur
+}
+
+// mappable: can a field mapping start at this node (START or a typed node)?
+func (g *gen) mappable(key string) bool {
+	if key == START {
+		return true
+	}
+	n := g.s.node(key)
+	return n != nil && n.Kind != kPass
+}
+
+// mappedNode (workflow): a typed node fed through a field mapping of the value of
+// static type cur that node `up` emits: a struct field or map key of it becomes the
+// node's input, or it becomes a struct field / map key of the node's input.
+func (g *gen) mappedNode(cur int, up string) (string, Mapping) {
+	r := g.r
+	var m Mapping
+	in := -1
+	srcKey := "k"
+	if u := g.s.node(up); u != nil && u.OutKey != "" {
+		srcKey = u.OutKey
+	}
+	fromOK := cur == tT1 || cur == tPT1 || cur == tT2 || cur == tMap || cur == tVars
+	switch {
+	case r.Prob(g.pBad * 2): // hostile: any mapping towards any type
+		m = mon.PickOne(r, []Mapping{{From: "V"}, {From: "W"}, {From: srcKey}, {To: "V"}, {To: "W"}, {To: "k"}})
+		in = pickType(r)
+	case fromOK && r.Prob(0.5):
+		switch cur {
+		case tT1, tPT1:
+			m.From, in = "V", compatType(r, tInt, g.pBad)
+		case tT2:
+			m.From, in = "W", compatType(r, tString, g.pBad)
+		default: // a map element is only known as `any`: checked at run time
+			m.From, in = srcKey, pickType(r)
+		}
+	default:
+		switch {
+		case cur == tInt && r.Prob(0.7):
+			m.To, in = "V", mon.PickOne(r, []int{tT1, tPT1})
+		case cur == tString && r.Prob(0.6):
+			m.To, in = "W", tT2
+		case cur >= 0 && isIface(cur) && r.Prob(0.35): // checked at run time
+			if r.Bool() {
+				m.To, in = "V", mon.PickOne(r, []int{tT1, tPT1})
+			} else {
+				m.To, in = "W", tT2
+			}
+		default:
+			m.To, in = "k", mon.PickOne(r, []int{tMap, tMap, tAny})
+		}
+	}
+	k := g.newNode(nodeReq{cur: cur, up: up, wantOut: -1, hasForceIn: true, forceIn: in})
+	return k, m
 }
 
 func genSpec(r *mon.Rand) *Spec {
@@ -355,22 +527,43 @@ func genSpec(r *mon.Rand) *Spec {
 func genSpecOnce(r *mon.Rand) *Spec {
 	g := &gen{r: r, s: &Spec{GO: -1}, pBad: 0.05}
 	s := g.s
+	switch x := r.Float(); {
+	case x < 0.46:
+		s.Front = feGraph
+	case x < 0.72:
+		s.Front = feChain
+	default:
+		s.Front = feWorkflow
+	}
+	wf, chain := s.Front == feWorkflow, s.Front == feChain
 	s.GI = pickType(r)
-	s.State = r.Prob(0.4)
-	s.DAG = r.Prob(0.3)
+	s.State = r.Prob(0.45)
+	s.DAG = s.Front == feGraph && r.Prob(0.3)
+	mapJoin := func() int { return mon.PickOne(r, []int{tMap, tMap, tAny}) }
 	curNode, cur := START, s.GI
 	nElems := r.Range(1, 3)
 	for e := 0; e < nElems; e++ {
 		last := e == nElems-1
 		x := r.Float()
+		if wf && curNode == START && x >= 0.45 && x < 0.90 {
+			// a workflow branch on START gives the workflow no start node ("start node not
+			// set" at Compile): a workflow begins with a node or a fan-out
+			x = 0
+		}
 		switch {
 		case x < 0.45: // plain node
+			if wf && g.mappable(curNode) && r.Prob(0.4) {
+				k, m := g.mappedNode(cur, curNode)
+				g.mappedEdge(curNode, k, m)
+				curNode, cur = k, g.staticOut(k, cur)
+				break
+			}
 			k := g.newNode(nodeReq{cur: cur, up: curNode, allowPass: true, wantOut: -1})
 			g.edge(curNode, k)
 			curNode, cur = k, g.staticOut(k, cur)
 		case x < 0.90: // branch block (possibly two branches of one group on the same source)
 			k := r.Range(2, 3)
-			double := r.Prob(0.15)
+			double := !chain && r.Prob(0.15)
 			if double {
 				s.DAG = false
 			}
@@ -381,9 +574,14 @@ func genSpecOnce(r *mon.Rand) *Spec {
 				conds = append(conds, compatType(r, cur, g.pBad*2))
 			}
 			streamCond := []bool{r.Prob(0.3), r.Prob(0.3)}
-			// the type the join expects; every arm is built towards it
+			// the type the join expects; every arm is built towards it. In a workflow a node
+			// has one whole-value source at most: the arms meet through field mappings
+			// (distinct keys of a map or `any` input).
 			toEnd := last && r.Prob(0.6)
 			J := compatType(r, cur, g.pBad)
+			if wf {
+				J = mapJoin()
+			}
 			if toEnd {
 				if s.GO < 0 {
 					s.GO = J
@@ -398,8 +596,11 @@ func genSpecOnce(r *mon.Rand) *Spec {
 				if ln == 2 && r.Prob(0.6) {
 					ln = 1
 				}
-				if ln == 0 && emptyUsed {
+				if ln == 0 && (emptyUsed || (wf && !g.mappable(curNode))) {
 					ln = 1
+				}
+				if chain {
+					ln = 1 // a ChainBranch arm is exactly one node
 				}
 				if ln == 0 {
 					emptyUsed = true
@@ -408,10 +609,10 @@ func genSpecOnce(r *mon.Rand) *Spec {
 				ac, an := cur, curNode
 				for j := 0; j < ln; j++ {
 					want := -1
-					if j == ln-1 {
+					if j == ln-1 && !wf {
 						want = J
 					}
-					nk := g.newNode(nodeReq{cur: ac, up: an, allowPass: true, wantOut: want})
+					nk := g.newNode(nodeReq{cur: ac, up: an, allowPass: !(wf && j == ln-1), wantOut: want})
 					if j == 0 {
 						arms[a].first = nk
 					} else {
@@ -423,21 +624,39 @@ func genSpecOnce(r *mon.Rand) *Spec {
 			}
 			join := END
 			if !toEnd {
-				join = g.newNode(nodeReq{cur: J, allowPass: true, wantOut: -1, exactIn: true})
+				if wf {
+					join = g.newNode(nodeReq{cur: J, wantOut: -1, hasForceIn: true, forceIn: J})
+					s.node(join).Echo = false
+				} else {
+					join = g.newNode(nodeReq{cur: J, allowPass: true, wantOut: -1, exactIn: true})
+				}
 			}
 			var ends []string
-			for _, a := range arms {
+			var maps []Mapping
+			for i, a := range arms {
 				if a.first == "" {
 					ends = append(ends, join)
+					if wf {
+						maps = append(maps, Mapping{To: fmt.Sprintf("x%d", i)})
+					}
 				} else {
 					ends = append(ends, a.first)
+					if wf {
+						maps = append(maps, Mapping{})
+					}
 				}
 			}
 			for i, c := range conds {
-				s.Calls = append(s.Calls, Call{Branch: true, From: curNode, To: append([]string(nil), ends...), Cond: c, StreamCond: streamCond[i], Group: grp})
+				s.Calls = append(s.Calls, Call{Branch: true, From: curNode, To: append([]string(nil), ends...), Cond: c, StreamCond: streamCond[i], Group: grp,
+					Maps: append([]Mapping(nil), maps...)})
 			}
-			for _, a := range arms {
-				if a.first != "" {
+			for i, a := range arms {
+				if a.first == "" {
+					continue
+				}
+				if wf {
+					g.mappedEdge(a.lastN, join, Mapping{To: fmt.Sprintf("x%d", i)})
+				} else {
 					g.edge(a.lastN, join)
 				}
 			}
@@ -446,20 +665,44 @@ func genSpecOnce(r *mon.Rand) *Spec {
 			} else {
 				curNode, cur = join, g.staticOut(join, J)
 			}
-		default: // fan-out with keyed outputs, fan-in on a map consumer
-			ak := g.newNode(nodeReq{cur: cur, up: curNode, forceOutKey: "a", wantOut: -1})
-			bk := g.newNode(nodeReq{cur: cur, up: curNode, forceOutKey: "b", wantOut: -1})
-			g.edge(curNode, ak)
-			g.edge(curNode, bk)
+		default: // fan-out, fan-in on a map consumer: keyed outputs (a Parallel in a chain), field mappings in a workflow
+			keys := []string{"a", "b"}
+			if r.Prob(0.25) {
+				keys = append(keys, "c")
+			}
+			var fan []string
+			for _, key := range keys {
+				var nk string
+				if wf {
+					nk = g.newNode(nodeReq{cur: cur, up: curNode, wantOut: -1})
+				} else {
+					nk = g.newNode(nodeReq{cur: cur, up: curNode, allowPass: true, forceOutKey: key, wantOut: -1})
+				}
+				g.edge(curNode, nk)
+				fan = append(fan, nk)
+			}
 			join := END
 			if !last || r.Prob(0.5) {
-				join = g.newNode(nodeReq{cur: tMap, up: ak, allowPass: true, wantOut: -1, exactIn: true})
-				if jn := s.node(join); jn.InKey != "" {
-					jn.InKey = mon.PickOne(r, []string{"a", "b"})
+				if wf {
+					jt := mapJoin()
+					join = g.newNode(nodeReq{cur: jt, wantOut: -1, hasForceIn: true, forceIn: jt})
+					s.node(join).Echo = false
+				} else {
+					join = g.newNode(nodeReq{cur: tMap, up: fan[0], allowPass: true, wantOut: -1, exactIn: true})
+					if jn := s.node(join); jn.InKey != "" {
+						jn.InKey = mon.PickOne(r, keys)
+					}
+				}
+			} else if wf && s.GO < 0 {
+				s.GO = mapJoin()
+			}
+			for i, nk := range fan {
+				if wf {
+					g.mappedEdge(nk, join, Mapping{To: keys[i]})
+				} else {
+					g.edge(nk, join)
 				}
 			}
-			g.edge(ak, join)
-			g.edge(bk, join)
 			if join == END {
 				curNode, cur = END, tMap
 			} else {
@@ -599,7 +842,8 @@ func (s *Spec) wellFormed() bool {
 	}
 	// the generator's fan-out discipline (keeps "every failure is the framework's"
 	// true): a source has exactly one edge, or only branches of one group with the
-	// same ends, or two edges to keyed lambdas that meet again at one consumer.
+	// same ends, or several edges to nodes that meet again at one consumer where
+	// their values merge: distinct output keys, or (workflow) distinct mapped fields.
 	srcs := map[string][]Call{}
 	for _, c := range s.Calls {
 		srcs[c.From] = append(srcs[c.From], c)
@@ -623,24 +867,217 @@ func (s *Spec) wellFormed() bool {
 		case nb == 0 && ne == 1:
 		case ne == 0:
 			for _, c := range cs[1:] {
-				if c.Group != cs[0].Group || strings.Join(c.To, ",") != strings.Join(cs[0].To, ",") {
+				if c.Group != cs[0].Group || strings.Join(c.To, ",") != strings.Join(cs[0].To, ",") || fmt.Sprint(c.Maps) != fmt.Sprint(cs[0].Maps) {
 					return false
 				}
 			}
-		case nb == 0 && ne == 2:
-			a, b := s.node(cs[0].To[0]), s.node(cs[1].To[0])
-			if a == nil || b == nil || a.Kind == kPass || b.Kind == kPass || a.OutKey == "" || b.OutKey == "" || a.OutKey == b.OutKey {
-				return false
-			}
-			if indeg[a.Key] != 1 || indeg[b.Key] != 1 || len(srcs[a.Key]) != 1 || len(srcs[b.Key]) != 1 ||
-				srcs[a.Key][0].Branch || srcs[b.Key][0].Branch || srcs[a.Key][0].To[0] != srcs[b.Key][0].To[0] {
-				return false
+		case nb == 0 && ne >= 2:
+			keys := map[string]bool{}
+			join := ""
+			for _, c := range cs {
+				a := s.node(c.To[0])
+				if a == nil || indeg[a.Key] != 1 || len(srcs[a.Key]) != 1 || srcs[a.Key][0].Branch {
+					return false
+				}
+				o := srcs[a.Key][0]
+				k := a.OutKey
+				if m := o.mapping(0); m.To != "" {
+					k = m.To
+				}
+				if k == "" || keys[k] || (join != "" && join != o.To[0]) {
+					return false
+				}
+				keys[k], join = true, o.To[0]
 			}
 		default:
 			return false
 		}
 	}
+	// field mappings: workflow only, never at a pass-through node, a node is fed either
+	// by one whole value (alternatives behind an exclusive branch aside) or by
+	// mappings to distinct fields
+	type feed struct{ whole, mapped int }
+	feeds := map[string]*feed{}
+	toKeys := map[string]map[string]bool{}
+	for ci := range s.Calls {
+		c := &s.Calls[ci]
+		if len(c.Maps) != 0 && len(c.Maps) != len(c.To) {
+			return false
+		}
+		if c.mapped() && s.Front != feWorkflow {
+			return false
+		}
+		for i, t := range c.To {
+			m := c.mapping(i)
+			if feeds[t] == nil {
+				feeds[t], toKeys[t] = &feed{}, map[string]bool{}
+			}
+			if !m.empty() {
+				if a := s.node(c.From); a != nil && a.Kind == kPass {
+					return false
+				}
+				if b := s.node(t); b != nil && (b.Kind == kPass || b.InKey != "") {
+					return false
+				}
+			}
+			if m.To == "" {
+				feeds[t].whole++
+			} else {
+				// two branches of one group repeat the same connection
+				if toKeys[t][c.From+">"+m.To] {
+					continue
+				}
+				for k := range toKeys[t] {
+					if strings.HasSuffix(k, ">"+m.To) {
+						return false
+					}
+				}
+				toKeys[t][c.From+">"+m.To] = true
+				feeds[t].mapped++
+			}
+		}
+	}
+	for _, f := range feeds {
+		if f.whole > 0 && f.mapped > 0 {
+			return false
+		}
+	}
+	if s.Front == feWorkflow {
+		// one whole-value source per node: count distinct sources
+		src := map[string]map[string]bool{}
+		for ci := range s.Calls {
+			c := &s.Calls[ci]
+			for i, t := range c.To {
+				if c.mapping(i).To == "" {
+					if src[t] == nil {
+						src[t] = map[string]bool{}
+					}
+					src[t][c.From] = true
+				}
+			}
+		}
+		for _, m := range src {
+			if len(m) > 1 {
+				return false
+			}
+		}
+		if s.DAG {
+			return false
+		}
+	}
+	if s.Front == feChain {
+		if _, ok := s.chainPlan(); !ok || s.DAG {
+			return false
+		}
+	}
 	return true
+}
+
+// ---- the chain reading of a construction ------------------------------------------------
+
+type chainElem struct {
+	Kind int      // 0 node, 1 parallel, 2 branch
+	Keys []string // node keys
+	Call int      // index of the branch call
+}
+
+// chainPlan reads the construction as a sequence of chain elements: single nodes,
+// Parallels (several keyed nodes that meet at the next element) and ChainBranches
+// (one node per arm, all meeting at the next element). ok=false: not chain shaped.
+func (s *Spec) chainPlan() ([]chainElem, bool) {
+	indeg := map[string]int{}
+	for _, c := range s.Calls {
+		for _, t := range c.To {
+			indeg[t]++
+		}
+	}
+	outs := func(u string) []int {
+		var r []int
+		for i, c := range s.Calls {
+			if c.From == u {
+				r = append(r, i)
+			}
+		}
+		return r
+	}
+	var plan []chainElem
+	used := 0
+	cur := START
+	for steps := 0; steps < 64; steps++ {
+		os := outs(cur)
+		if len(os) == 0 {
+			return nil, false
+		}
+		var group []string // nodes that must all lead to the next element
+		if s.Calls[os[0]].Branch {
+			if len(os) != 1 {
+				return nil, false
+			}
+			c := s.Calls[os[0]]
+			for _, t := range c.To {
+				if t == END {
+					return nil, false
+				}
+			}
+			plan = append(plan, chainElem{Kind: 2, Keys: append([]string(nil), c.To...), Call: os[0]})
+			group = c.To
+			used++
+		} else if len(os) == 1 {
+			t := s.Calls[os[0]].To[0]
+			used++
+			if t == END {
+				break
+			}
+			if indeg[t] != 1 {
+				return nil, false
+			}
+			plan = append(plan, chainElem{Kind: 0, Keys: []string{t}})
+			cur = t
+			continue
+		} else {
+			keys := map[string]bool{}
+			for _, ci := range os {
+				if s.Calls[ci].Branch {
+					return nil, false
+				}
+				t := s.Calls[ci].To[0]
+				n := s.node(t)
+				if n == nil || n.OutKey == "" || keys[n.OutKey] {
+					return nil, false
+				}
+				keys[n.OutKey] = true
+				group = append(group, t)
+				used++
+			}
+			plan = append(plan, chainElem{Kind: 1, Keys: append([]string(nil), group...)})
+		}
+		// every node of the group has one way in and one edge out, to the same successor
+		next := ""
+		for _, k := range group {
+			o := outs(k)
+			if indeg[k] != 1 || len(o) != 1 || s.Calls[o[0]].Branch {
+				return nil, false
+			}
+			t := s.Calls[o[0]].To[0]
+			if next != "" && next != t {
+				return nil, false
+			}
+			next = t
+			used++
+		}
+		if next == END {
+			break
+		}
+		if indeg[next] != len(group) {
+			return nil, false
+		}
+		plan = append(plan, chainElem{Kind: 0, Keys: []string{next}})
+		cur = next
+	}
+	if used != len(s.Calls) {
+		return nil, false
+	}
+	return plan, true
 }
 
 // features of a spec, for evidence counters.
@@ -649,6 +1086,24 @@ func (s *Spec) features() []string {
 	for _, n := range s.Nodes {
 		if n.Kind == kPass {
 			f["passthrough"] = true
+			if n.InKey != "" || n.OutKey != "" {
+				f["keyed-passthrough"] = true
+				if n.Pre >= 0 || n.Post >= 0 {
+					f["handler-on-keyed-passthrough"] = true
+				}
+			}
+			if n.Pre >= 0 || n.Post >= 0 {
+				f["handler-on-passthrough"] = true
+			}
+		}
+		if n.Nil {
+			f["nil-emitter"] = true
+		}
+		if (n.Pre >= 0 && n.PreConv > 0) || (n.Post >= 0 && n.PostConv > 0) {
+			f["converting-handler"] = true
+		}
+		if (n.Pre >= 0 && n.PreConv == 2) || (n.Post >= 0 && n.PostConv == 2) {
+			f["nil-handler"] = true
 		}
 		if n.Kind == kTrans {
 			f["transform-lambda"] = true
@@ -666,9 +1121,14 @@ func (s *Spec) features() []string {
 			f["post-handler"] = true
 		}
 	}
+	f["front-"+frontNames[s.Front]] = true
 	for _, c := range s.Calls {
+		if c.mapped() {
+			f["field-mapping"] = true
+		}
 		if c.Branch {
 			f["branch"] = true
+			f["branch-"+frontNames[s.Front]] = true
 			if c.StreamCond {
 				f["stream-branch"] = true
 			}
